@@ -15,6 +15,8 @@ import (
 	"verif/internal/drv"
 	"verif/internal/evid"
 	"verif/internal/gen"
+	"verif/internal/hooks"
+	"verif/internal/sched"
 	"verif/internal/model"
 	"verif/internal/simfs"
 )
@@ -129,7 +131,7 @@ func (s *c05Store) close() {
 
 // c05Run executes one template sequence and compares with the model after
 // every step, in the live WAL and in a recovered clone of its directory.
-func c05Run(c *evid.Ctx, geo c05Geo, seq []string, rng *rand.Rand, real bool, seqID string) {
+func c05Run(c *evid.Ctx, geo c05Geo, seq []string, rng *rand.Rand, real bool, seqID string, pend bool) {
 	st := &c05Store{seg: geo.seg}
 	if real {
 		dir, err := os.MkdirTemp("", "verif-c05-")
@@ -147,6 +149,15 @@ func c05Run(c *evid.Ctx, geo c05Geo, seq []string, rng *rand.Rand, real bool, se
 		return
 	}
 	defer st.close()
+	// pending-rotation mode: the background rotation is held at the point where it is
+	// queued but has not taken the write lock, so the next call (or Close) always gets in
+	// first; it is released when that call starts waiting for it, or has returned
+	var gate *sched.RotGate
+	if pend {
+		gate = sched.NewRotGate(st.w)
+		defer func() { gate.Close() }()
+		c.Count("pending_rotation_sequences", 1)
+	}
 	l := model.NewLog()
 	var ever []uint64
 	var ops []string
@@ -159,13 +170,34 @@ func c05Run(c *evid.Ctx, geo c05Geo, seq []string, rng *rand.Rand, real bool, se
 		c.Distinct("state_op_pairs", shape+"|"+t)
 		c.Count("steps", 1)
 		if t == "Reopen" {
+			if gate != nil && gate.Holding() {
+				c.Count("closes_with_rotation_pending", 1)
+			}
 			st.close()
-			if err := st.open(); err != nil {
+			if gate != nil {
+				gate.Close()
+			}
+			err := st.open()
+			if gate != nil && err == nil {
+				gate = sched.NewRotGate(st.w)
+			}
+			if err != nil {
 				c.Violation("C05:reopen-failed", fmt.Sprintf("clean Close/Open failed after %v: %v", ops, err), replay)
 				return
 			}
 		} else {
-			res := drv.Apply(st.w, op)
+			var res drv.Result
+			if gate == nil {
+				res = drv.Apply(st.w, op)
+			} else {
+				res = drv.ApplyNoWait(st.w, op)
+				res.Quiesced = true
+				if gate.Holding() && rng.Intn(2) == 0 {
+					// sometimes let the rotation finish now, sometimes leave it pending for the next call
+					gate.Release()
+					res.Quiesced = hooks.WaitRotation(st.w, drv.Watchdog)
+				}
+			}
 			if !res.Quiesced {
 				c.Inconclusive("rotation did not finish within the watchdog in %v", ops)
 				return
@@ -215,6 +247,21 @@ func c05Run(c *evid.Ctx, geo c05Geo, seq []string, rng *rand.Rand, real bool, se
 				return
 			}
 			c.Count("reopen_comparisons", 1)
+			if pend {
+				// what the first reopen wrote (e.g. a rotation it completed) must read back the
+				// same after a second one
+				w3, err := drv.OpenSim(img, drv.Cfg{SegSize: geo.seg})
+				if err != nil {
+					c.Violation("C05:second-reopen-failed:"+t, fmt.Sprintf("second reopen of a copy after %v failed: %v", ops, err), replay)
+					return
+				}
+				obs3 := drv.Observe(w3, probes)
+				drv.CloseWAL(w3)
+				if d := l.Diff(obs3); d != "" {
+					c.Violation("C05:mismatch-after-second-reopen:"+t+":"+diffClass(d), fmt.Sprintf("copy reopened twice after %v (seg=%d): %s", ops, geo.seg, d), replay)
+					return
+				}
+			}
 		}
 	}
 }
@@ -251,7 +298,7 @@ func shapeOf(l *model.Log) string {
 }
 
 func runC05(c *evid.Ctx) {
-	c.Rule("operation sequences over an 18-template alphabet (appends: 1, 3, larger than a segment, gap, repeat, lower, internally non-consecutive, empty; deletes: prefix, suffix, all, strict middle, disjoint, inverted; reopen), exhaustive to a depth bound for each (segment size, start index) geometry and seeded random beyond; after EVERY step the full observable state (First, Last, GetLog of [first-2,last+2] + {0,1,max} + every index ever written) is compared with the model, in the live WAL and in a reopened copy of the directory; non-trivial = distinct (model-state shape, template) pairs exercised",
+	c.Rule("operation sequences over an 18-template alphabet (appends: 1, 3, larger than a segment, gap, repeat, lower, internally non-consecutive, empty; deletes: prefix, suffix, all, strict middle, disjoint, inverted; reopen), exhaustive to a depth bound for each (segment size, start index) geometry and seeded random beyond; after EVERY step the full observable state (First, Last, GetLog of [first-2,last+2] + {0,1,max} + every index ever written) is compared with the model, in the live WAL and in a reopened copy of the directory; a third of the sequences run in pending-rotation mode (the background rotation is held queued so that the next call, or Close, always gets the write lock first, and the directory copy is reopened twice); non-trivial = distinct (model-state shape, template) pairs exercised",
 		"steps", "state_op_pairs")
 	c.Assume("index 0 is never used as a raft index (LastIndex()==0 means empty)", "simfs.Strict behaviour (this check does not crash anything)")
 	depth := 3
@@ -277,6 +324,7 @@ func runC05(c *evid.Ctx) {
 		real bool
 		id   string
 		seed int64
+		pend bool
 	}
 	jobs := make(chan job, 256)
 	var wg sync.WaitGroup
@@ -285,7 +333,7 @@ func runC05(c *evid.Ctx) {
 		go func() {
 			defer wg.Done()
 			for j := range jobs {
-				c05Run(c, j.geo, j.seq, rand.New(rand.NewSource(j.seed)), j.real, j.id)
+				c05Run(c, j.geo, j.seq, rand.New(rand.NewSource(j.seed)), j.real, j.id, j.pend)
 			}
 		}()
 	}
@@ -294,7 +342,7 @@ func runC05(c *evid.Ctx) {
 	rec = func(geo c05Geo, prefix []string, d int, alphabet []string) {
 		if d == 0 {
 			n++
-			jobs <- job{geo, append([]string{}, prefix...), false, fmt.Sprintf("e%d", n), c.Seed*7919 + int64(n)}
+			jobs <- job{geo, append([]string{}, prefix...), false, fmt.Sprintf("e%d", n), c.Seed*7919 + int64(n), n%3 == 0}
 			return
 		}
 		for _, t := range alphabet {
@@ -339,7 +387,7 @@ func runC05(c *evid.Ctx) {
 		if real {
 			c.Count("real_fs_sequences", 1)
 		}
-		jobs <- job{g, seq, real, fmt.Sprintf("r%d", i), c.Seed*104729 + int64(i)}
+		jobs <- job{g, seq, real, fmt.Sprintf("r%d", i), c.Seed*104729 + int64(i), !real && i%2 == 0}
 	}
 	close(jobs)
 	wg.Wait()
